@@ -1174,6 +1174,7 @@ func runC20(cfg Config) {
 		}
 	}
 	c20WindowFrames(cfg, rep, rng, monitor)
+	storeOptsStores(cfg, rep, m, rng)
 	rep.Write(cfg.Out)
 }
 
